@@ -33,7 +33,6 @@ struct _OrcParser {
   int line_length;
   int creg_index;
 
-  OrcOpcodeSet *opcode_set;
   OrcProgram *program;
   OrcProgram *error_program;
   OrcProgram *refused_program;
@@ -365,7 +364,6 @@ orc_parse_init (OrcParser *parser, const char *code, int enable_errors)
   parser->code_length = strlen (code);
   parser->line_number = 0;
   parser->p = code;
-  parser->opcode_set = orc_opcode_set_get ("sys");
   parser->enable_errors = enable_errors;
 }
 
@@ -782,15 +780,9 @@ orc_parse_handle_directive (OrcParser *parser, const OrcLine *line)
 static OrcStaticOpcode *
 orc_parse_find_opcode (OrcParser *parser, const char *opcode)
 {
-  int i;
-
-  for(i=0;i<parser->opcode_set->n_opcodes;i++){
-    if (strcmp (opcode, parser->opcode_set->opcodes[i].name) == 0) {
-      return parser->opcode_set->opcodes + i;
-    }
-  }
-
-  return NULL;
+  /* every registered opcode set, the built-in one first: the instruction is
+   * appended by name and orc_program_append_str_n() looks in all of them */
+  return orc_opcode_find_by_name (opcode);
 }
 
 static int
